@@ -86,6 +86,16 @@ def pool():
     out.append(("T('t', schema=('d', 's'))", ("table", "t", ("d", "s"), None, None)))
     out.append(("T('t', schema='s\".\"x')", ("table", "t", ('s"."x',), None, None)))
     out.append(("T('t', schema=('s', 'x'))", ("table", "t", ("s", "x"), None, None)))
+    # three and four levels given as a sequence: every level counts
+    out.append(("T('t', schema=('d', 's', 'x'))", ("table", "t", ("d", "s", "x"), None, None)))
+    out.append(("T('t', schema=('d', 's2', 'x'))", ("table", "t", ("d", "s2", "x"), None, None)))
+    out.append(("T('t', schema=('d', 'x'))", ("table", "t", ("d", "x"), None, None)))
+    out.append(("T('t', schema=['d', 's', 'x'])", ("table", "t", ("d", "s", "x"), None, None)))
+    out.append(("T('t', schema=Schema('x', parent=Schema('s', parent=Database('d'))))", ("table", "t", ("d", "s", "x"), None, None)))
+    out.append(("T('t', schema=('a', 'd', 's', 'x'))", ("table", "t", ("a", "d", "s", "x"), None, None)))
+    out.append(("Schema('x', parent=Schema('s', parent=Database('d')))", ("schema", ("d", "s", "x"))))
+    out.append(("T('t', schema=('d', 's', 'x'))._schema", ("schema", ("d", "s", "x"))))
+    out.append(("T('t', schema=('d', 's2', 'x'))._schema", ("schema", ("d", "s2", "x"))))
     out.append(("Schema('d.s')", ("schema", ("d.s",))))
     out.append(("Schema('s\".\"x')", ("schema", ('s"."x',))))
     out.append(("Schema('x', parent=Schema('s'))", ("schema", ("s", "x"))))
